@@ -182,6 +182,37 @@ example : ∃ (X Y : ℝ) (h : ℕ) (cx cy : ℝ), proj (α := ℝ) 1 0 = some (
     (by norm_num) (by linarith [Real.two_le_pi]) (by linarith [Real.pi_pos]) (by linarith [Real.pi_pos])
     (Or.inl (Real.arcsin_pos.mpr (by norm_num)))
 
+/-- **`ring_sph_coo_inverts` on the sphere** (item 5 composed with `proj`): off the north-cap seams, `hash_with_dxdy` is
+    defined, its offsets are in `[0,1)²`, and `sph_coo` applied to its result calls `unproj` on `proj(lon, lat)` -/
+theorem ring_sph_coo_sphere_partial (debug : Bool) {n : Nat} (hn : 1 ≤ n) (hn30 : n < 2 ^ 30) (hRI : RingIndexExact n)
+    (lon lat : ℝ) (hlon0 : 0 ≤ lon) (hlon1 : lon < 2 * π) (hlat0 : -(π / 2) ≤ lat) (hlat1 : lat ≤ π / 2)
+    (hseam : lat < Real.arcsin (2 / 3) ∨ (lat < π / 2 ∧ ∀ k : ℕ, lon ≠ k * (π / 2))) :
+    ∃ (X Y : ℝ) (h : ℕ) (dx dy : ℝ), proj (α := ℝ) lon lat = some (X, Y) ∧
+      hashWithDxDy debug n lon lat = some (h, dx, dy) ∧ h < 12 * n * n ∧ 0 ≤ dx ∧ dx < 1 ∧ 0 ≤ dy ∧ dy < 1 ∧
+      sphCoo debug n h dx dy = unproj X Y := by
+  obtain ⟨X, Y, hp, hg⟩ := goodPoint_of_sphere lon lat hlon0 hlon1 hlat0 hlat1 hseam
+  obtain ⟨r, i, dl, dh, hr, hi, hP, -⟩ := hashPlane_point debug hn hn30 hg
+  have hh : hashPlaneDxDy debug n X Y = some (ringStart n r + i, (dldhToDxDy dl dh).1, (dldhToDxDy dl dh).2) := by
+    unfold hashPlaneDxDy; rw [hP]; rfl
+  obtain ⟨h1, h2, h3, h4, h5⟩ := ring_sph_coo_inverts debug hn hn30 hRI hg _ _ _ hh
+  refine ⟨X, Y, _, _, _, hp, ?_, ringStart_add_lt hn hr hi, h2, h3, h4, h5, h1⟩
+  rw [hashWithDxDy_eq, hp]; exact hh
+
+/-- **round trip on the northern hemisphere**: `sph_coo ∘ hash_with_dxdy = id` for `0 ≤ lon < 2π`, `0 ≤ lat` on the near
+    side of the pole threshold of `unproj` (`√6·cos(lat/2 + π/4) > EPS_POLE`), off the north-cap seams -/
+theorem ring_sph_coo_roundtrip_north (debug : Bool) {n : Nat} (hn : 1 ≤ n) (hn30 : n < 2 ^ 30) (hRI : RingIndexExact n)
+    (lon lat : ℝ) (hlon0 : 0 ≤ lon) (hlon1 : lon < 2 * π) (hlat0 : 0 ≤ lat) (hlat1 : lat ≤ π / 2)
+    (hpole : (Num.epsPole : ℝ) < Real.sqrt 6 * Real.cos (1 / 2 * lat + π / 4))
+    (hseam : lat < Real.arcsin (2 / 3) ∨ (lat < π / 2 ∧ ∀ k : ℕ, lon ≠ k * (π / 2))) :
+    ∃ (h : ℕ) (dx dy : ℝ), hashWithDxDy debug n lon lat = some (h, dx, dy) ∧ sphCoo debug n h dx dy = some (lon, lat) := by
+  obtain ⟨X, Y, h, dx, dy, hp, hh, -, -, -, -, -, hs⟩ :=
+    ring_sph_coo_sphere_partial debug hn hn30 hRI lon lat hlon0 hlon1 (by linarith [Real.pi_pos]) hlat1 hseam
+  obtain ⟨X', Y', hp', hu⟩ := unproj_proj_real lon lat hlon0 hlon1 hlat0 hlat1 hpole
+  rw [hp] at hp'
+  simp only [Option.some.injEq, Prod.mk.injEq] at hp'
+  obtain ⟨rfl, rfl⟩ := hp'
+  exact ⟨h, dx, dy, hh, by rw [hs, hu]⟩
+
 /-! ## the north pole -/
 
 theorem hashTail_pole {α : Type} [Num α] (debug : Bool) {n K I' : Nat} (dl dh : α) (hn : 1 ≤ n) (hK : 5 * n ≤ K) :
